@@ -462,6 +462,14 @@ class Builder(object):
     def exec_stmt(self, st):
         """apply one simple statement to the environment; returns False if the
         statement is not a simple (Ann/Aug)Assign"""
+        if isinstance(st, ast.FunctionDef) and not st.decorator_list:
+            # a nested one-expression function is the lambda it could have been written as
+            body = [b for b in st.body if not (isinstance(b, ast.Expr) and isinstance(b.value, ast.Constant))]
+            if len(body) == 1 and isinstance(body[0], ast.Return) and body[0].value is not None:
+                lam = ast.Lambda(args=st.args, body=body[0].value)
+                self.env[st.name] = self.t(lam)
+                return True
+            return False
         if isinstance(st, ast.Assign):
             v = self.t(st.value)
             for tg in st.targets:
